@@ -17,7 +17,16 @@ at statement granularity run by several searches at once over the one configured
 ReplicaSetConstant, ShardEachOnce, ShardHonest, ShardSummary; the variant that shuffles the shared list in
 place must be rejected).  It is bound to the code by the driver's -conc stage: all scenarios of one
 configuration are concurrent searches of ONE search.Ingestor; every outcome must be in its scenario's Allowed,
-no search may ask a host twice, and afterwards the configured replica lists must be the lists of the case."""
+no search may ask a host twice, and afterwards the configured replica lists must be the lists of the case.
+
+Part 5 (Family "big") is the SIZE of a page: the model has no integer widths, so the all-up outcome over stores
+whose result sets partition 1..n is one closed-form rule (BigAlt/BigRule) whatever n is.  TLC decides on the small
+instances that the rule is exactly Allowed(scenario) (BigRuleIsRef, BigCountsExact, next to Honest, AllUpIsComplete,
+FetchIsGreedy), rejects the variant whose position table wraps (PosWidth > 0), and emits the table of dimensions
+(page sizes at the 2^8 / 2^16 boundaries ... conf.MaxRequestedDocuments x stores x distribution x order x hint x
+offset x break of one stream).  The driver generates the stores of a row arithmetically and holds the real
+search.Ingestor.Search + full read of the document iterator to the rule; on the small instances its evaluator of the
+rule must reproduce TLC's tables."""
 import hashlib
 import json
 import os
@@ -28,9 +37,14 @@ import vlib
 LEVEL = "model_checking"
 
 INVS = ("Honest, OnlyWhoAnswers, ColdWhenOld, AllUpIsComplete, FetchIsGreedy, RetentionHonest; one shard under concurrent "
-        "searches: ReplicaSetConstant, ShardEachOnce, ShardHonest, ShardSummary")
+        "searches: ReplicaSetConstant, ShardEachOnce, ShardHonest, ShardSummary; big pages: BigRuleIsRef, BigCountsExact")
 # the in-place shuffle of the shared replica list (InPlace = TRUE) must be rejected by TLC
 SHARD_MUT = {"ProxyRead_shard_inplace_set.cfg": "ReplicaSetConstant", "ProxyRead_shard_inplace_out.cfg": "ShardSummary"}
+# a position table that stores the position modulo a width (PosWidth = 4) must be rejected by TLC
+BIG_MUT = {"ProxyRead_big_wrap.cfg": "FetchIsGreedy"}
+
+
+big_samples = []
 
 
 def _scan(path, stats, samples, distinct):
@@ -40,6 +54,18 @@ def _scan(path, stats, samples, distinct):
             if not ln.startswith("{"):
                 continue
             c = json.loads(ln)
+            if "allowed" not in c:
+                # a row of the big-page table: nothing but the rule
+                d = c["big"]["dims"]
+                stats["big_row"] += 1
+                stats["big_row:page=%d" % d["page"]] += 1
+                stats["big_row:stores=%d,unit=%d,skew=%d" % (d["stores"], d["unit"], d["skew"])] += 1
+                if d["brk"]:
+                    stats["big_row:stream_breaks_after=%d" % d["brk"]] += 1
+                    distinct.add(hashlib.sha1(ln.encode()).digest()[:10])
+                if len(big_samples) < 2 and d["page"] > 65536 and i % 7 == 0:
+                    big_samples.append(c)
+                continue
             nontriv = any(b != "ok" for b in c["sb"].values()) or any(k != "ok" for k in c["fbk"].values())
             if nontriv:
                 distinct.add(hashlib.sha1(ln.encode()).digest()[:10])
@@ -67,20 +93,22 @@ def run(ctx):
                 ("merge", "ProxyRead_merge.cfg", None), ("fetch", "ProxyRead_fetch.cfg", None),
                 ("fetch3", "ProxyRead_fetch3.cfg", None), ("store", "ProxyRead_store.cfg", None),
                 ("shuf", "ProxyRead_shuf.cfg", None), ("conc", "ProxyRead_conc.cfg", None),
+                ("big", "ProxyRead_big.cfg", None),
                 ("rand", "ProxyRead_rand.cfg", ("num=150", 21))]
         asis = "ProxyRead_asis.cfg"
         shard = "ProxyRead_shard.cfg"
-        api_every = {"search": 7, "search8": 2, "merge": 5, "fetch": 5, "fetch3": 1, "store": 1, "rand": 1, "shuf": 5, "conc": 7}
+        api_every = {"search": 7, "search8": 2, "merge": 5, "fetch": 5, "fetch3": 1, "store": 1, "rand": 1, "shuf": 5, "conc": 7, "big": 9}
         conc_args = ["-conc-reps", "3", "-conc-min", "20000"]
     else:
         fams = [("search", "ProxyRead_searchfull.cfg", None), ("search8", "ProxyRead_search8full.cfg", None),
                 ("merge", "ProxyRead_mergefull.cfg", None), ("fetch", "ProxyRead_fetchfull.cfg", None),
                 ("fetch3", "ProxyRead_fetch3full.cfg", None), ("store", "ProxyRead_store.cfg", None),
                 ("shuf", "ProxyRead_shuffull.cfg", None), ("conc", "ProxyRead_concfull.cfg", None),
+                ("big", "ProxyRead_bigfull.cfg", None),
                 ("rand", "ProxyRead_rand.cfg", ("num=3000", 21))]
         asis = "ProxyRead_asisfull.cfg"
         shard = "ProxyRead_shardfull.cfg"
-        api_every = {"search": 5, "search8": 2, "merge": 11, "fetch": 3, "fetch3": 3, "store": 1, "rand": 4, "shuf": 5, "conc": 11}
+        api_every = {"search": 5, "search8": 2, "merge": 11, "fetch": 3, "fetch3": 3, "store": 1, "rand": 4, "shuf": 5, "conc": 11, "big": 7}
         conc_args = ["-conc-reps", "10", "-conc-min", "200000"]
     per = max(2, vlib.NCPU // 4)
 
@@ -99,20 +127,25 @@ def run(ctx):
 
     def tlc_shard(cfg):
         return vlib.run_tlc(ctx, "ProxyRead.tla", cfg, workers=per, tags=("DEV",), timeout=3400, heap="3g",
-                            quiet=cfg in SHARD_MUT)
+                            quiet=cfg in SHARD_MUT or cfg in BIG_MUT)
 
     fams.sort(key=lambda f: f[0] != "rand")      # the longest run first
-    with ThreadPoolExecutor(max_workers=len(fams) + 2 + len(SHARD_MUT)) as ex:
+    with ThreadPoolExecutor(max_workers=len(fams) + 2 + len(SHARD_MUT) + len(BIG_MUT)) as ex:
         fa = ex.submit(tlc_asis, asis)
         fr = [ex.submit(tlc, f) for f in fams]
-        fs = [(cfg, ex.submit(tlc_shard, cfg)) for cfg in [shard] + sorted(SHARD_MUT)]
+        fs = [(cfg, ex.submit(tlc_shard, cfg)) for cfg in [shard] + sorted(SHARD_MUT) + sorted(BIG_MUT)]
         results = [f.result() for f in fr]
         ra = fa.result()
         rs = [(cfg, f.result()) for cfg, f in fs]
     # Part 4: searchShard as pinned keeps the four invariants under every interleaving; the in-place shuffle of
     # the shared list loses them (a counterexample is demanded: the invariants are not vacuous)
     for cfg, r in rs:
-        if cfg in SHARD_MUT:
+        if cfg in BIG_MUT:
+            # Part 5: the rule is only the reference because positions have no width; a table that wraps is rejected
+            if r.violated != BIG_MUT[cfg]:
+                raise vlib.Infra("%s: a position table that wraps at PosWidth entries is expected to violate %s, got %s"
+                                 % (cfg, BIG_MUT[cfg], r.violated))
+        elif cfg in SHARD_MUT:
             if r.violated != SHARD_MUT[cfg]:
                 raise vlib.Infra("%s: the in-place shuffle of the shared replica list is expected to violate %s, got %s"
                                  % (cfg, SHARD_MUT[cfg], r.violated))
@@ -160,11 +193,21 @@ def run(ctx):
             what = {"doc-lost": "a document its store delivered in request order is missing from the response",
                     "doc-wrong": "a position carries a document that is not the document of the returned ID",
                     "doc-count": "the number of documents differs from the number of returned IDs",
+                    "doc-lost:big": "a complete search over a generated big page: documents their stores delivered in request order "
+                                    "come back empty",
+                    "doc-wrong:big": "a complete search over a generated big page: a position carries a document that is not the "
+                                     "document of the returned ID (or a document where its store's stream had broken)",
+                    "doc-count:big": "a generated big page: the document iterator does not deliver one document per returned ID",
+                    "ids:big": "a generated big page: the returned IDs are not the page of the merged result, or an ID was not "
+                               "fetched from the store that holds it",
+                    "outcome-kind:big": "a generated big page with every store answering is not returned as complete",
                     "panic": "the read path panicked where the specification lets it continue",
                     "outcome-kind": "error / partial / complete classification outside Allowed(scenario)",
                     "ids": "returned IDs (or the host they are fetched from) outside Allowed(scenario)",
                     "fake-protocol": "a store was asked something the scenario does not foresee",
-                    "crash": "driver process died"}.get(m.get("what"), "outcome outside Allowed(scenario)")
+                    "crash": "driver process died"}
+            what = what.get(m.get("what", "") + (":big" if m.get("path") == "big" else ""),
+                            what.get(m.get("what"), "outcome outside Allowed(scenario)"))
             ctx.violation(sig, m, what=what)
         if label == "conc":
             # the same scenarios as concurrent searches of one Ingestor per configuration
@@ -199,12 +242,18 @@ def run(ctx):
         "note": "family conc: every configuration (topology x ShuffleReplicas) = one search.Ingestor; all its scenarios are replayed "
                 "at the same time from %d goroutines in repeated passes; afterwards the configured replica lists are compared with the "
                 "case's lists" % vlib.NCPU}
+    ctx.cov["big_pages"] = {
+        "rows_replayed": drv_stats["big_rows"], "small_instances_replayed_both_ways": drv_stats["big_small"],
+        "documents_read": drv_stats["big_docs"],
+        "note": "family big: rows of the TLA+-decided dimension table, generated arithmetically from BigRule and held to it position by "
+                "position; on every small instance the driver's evaluator of the rule reproduced TLC's tables (answers, fetch requests, "
+                "the one allowed outcome)"}
     ctx.cov["traces_validated_against_impl"] = tot["cases"]
     ctx.cov["evaluations"] = tot["evals"]
     ctx.cov["distinct_nontrivial"] = len(distinct)
     ctx.cov["exhaustive"] = True
     ctx.cov["scenario_stats"] = dict(sorted(stats.items()))
-    ctx.cov["samples"] = samples[:3]
+    ctx.cov["samples"] = samples[:3] + big_samples[:1]
     ctx.cov["invariants"] = INVS + "; pinned transcription: FetchDesign (with finding signature), Deviations"
     ctx.cov["rule"] = (
         "one case per final TLC state = one fault scenario with its Allowed set. Families: search = every topology of the cfg "
@@ -218,7 +267,11 @@ def run(ctx):
         "search behaviours to ALL replicas (any of them may be asked first) of 1x2, 1x3, 2x2, 1x2+1x2 [thorough more]; conc = "
         "ShuffleReplicas off/on x every assignment of ok / error / wants-old-data to the replicas of 1x3, 2x2, 2x3, 1x2+1x2, replayed one by "
         "one AND as concurrent searches of one shared Ingestor per configuration; rand = seeded -simulate over <= 3x3 hot + <= 2x2 cold, "
-        "random behaviours, data, request, ShuffleReplicas. Every case runs through search.Ingestor.Search + full read of the document iterator; a "
+        "random behaviours, data, request, ShuffleReplicas; big = all-up searches over 2-3 single-replica shards whose result sets are arithmetic "
+        "generators over 1..n (interleaved / blocks of 1000 [thorough: contiguous parts], even / 3:1 skew): small instances (page <= 7 [9]) with "
+        "full tables, and the rows of the table Big (page 255, 256, 257, 65535, 65536, 65537, 70000, 100000 [thorough more] x stores x "
+        "distribution x order / hint / offset [quick: varied one at a time] x one stream breaking after 65537 [thorough also 300] documents) as "
+        "rule descriptors. Every case runs through search.Ingestor.Search + full read of the document iterator; a "
         "subsample (every k-th) through proxyapi gRPC Search/ComplexSearch. distinct_nontrivial = distinct cases in which at least "
         "one host misbehaves in search or fetch.")
     ctx.assumptions += [
@@ -233,6 +286,9 @@ def run(ctx):
         "over real gRPC a refused Fetch surfaces at the first Recv, so 'open error' scenarios are replayed only on the in-process path",
         "store side of wants-old-data (storeapi earlierThanOldestFrac, maturity) is exercised by the store family only (real hot/cold store incl. the state before the first maintenance pass); elsewhere a fake declares it",
         "totals, histograms and aggregations of the merged response are outside this check (C05/C06)",
+        "big pages: the expected outcome of a row is the closed-form rule that TLC proves equal to Allowed on the small instances of the same "
+        "family (the model has no integer widths, so the rule does not depend on n); rows are replayed in-process only, stores hold one "
+        "document per MID (RID 1), every store answers the search",
     ]
     # the proxy as a whole (ProxySystem.tla): a real bulk client and a real search ingestor over real in-process
     # stores behind fault-injecting client wrappers; every recorded history must be a behaviour of the model
